@@ -4,6 +4,7 @@ go 1.20
 
 require (
 	github.com/anishathalye/porcupine v1.3.0
+	github.com/btcsuite/btcd v0.23.2
 	github.com/elastos/Elastos.ELA v0.0.0
 	golang.org/x/crypto v0.17.0
 )
@@ -11,7 +12,6 @@ require (
 require (
 	github.com/RainFallsSilent/screw v1.1.1 // indirect
 	github.com/antlabs/strsim v0.0.2 // indirect
-	github.com/btcsuite/btcd v0.23.2 // indirect
 	github.com/btcsuite/btcd/chaincfg/chainhash v1.0.1 // indirect
 	github.com/fsnotify/fsnotify v1.5.4 // indirect
 	github.com/go-echarts/go-echarts/v2 v2.2.3 // indirect
